@@ -374,12 +374,16 @@ func fsRender(method string, resp *http.Response, body []byte, rerr error, headE
 	}
 	// a body compressed on the fly (gzip directive) is decoded before looking for tokens
 	decoded := body
+	// the bytes of an archive: a site with the gzip directive compresses the whole response for a
+	// client that accepts gzip (Content-Encoding: gzip) — also a zip, a tar, and a tar.gz once more
+	archiveBody := body
 	if len(body) > 2 && body[0] == 0x1f && body[1] == 0x8b {
 		if zr, err := gzip.NewReader(bytes.NewReader(body)); err == nil {
 			if d, err := io.ReadAll(zr); err == nil {
 				decoded = d
 				if ce == "gzip" {
 					ce = "-" // compressed on the fly by the gzip directive, not a precompressed sibling
+					archiveBody = d
 				}
 			}
 		}
@@ -398,7 +402,7 @@ func fsRender(method string, resp *http.Response, body []byte, rerr error, headE
 	}
 	isArchive := strings.HasPrefix(resp.Header.Get("Content-Disposition"), "attachment")
 	if st == 200 && isArchive {
-		items, err := fsArchiveItems(resp.Header.Get("Content-Type"), body)
+		items, err := fsArchiveItems(resp.Header.Get("Content-Type"), archiveBody)
 		if err != nil {
 			return "A\t?" + err.Error(), "archive-broken"
 		}
